@@ -21,6 +21,12 @@ claim("C05", "exploration",
       "Every explored execution must return: a parked coordinator has no timeout under the controlled scheduler, so a lost wake-up is a detected deadlock and a spinning worker a detected livelock (step cap under a fair suffix). Dependency shapes (independent, chain, fan-in, late conflict, error parked behind the commit boundary, nonce mismatch at commit, fatal error, database panic at the j-th call for every j) x 1-3 workers; the returned result must also be the reference's, and an injected panic must reach the caller unchanged.",
       "DESIGN.md §4 C05", SCHED_NOTE)
 
+claim("C10", "model_checking",
+      "explicit-state BFS over operation histories on the real ParallelState/revm State pair (canonical-digest dedup) + complete interleaving enumeration of cache-filling reads racing commit",
+      "States are (ParallelState, revm State) pairs rebuilt by replaying operation histories over a 15-operation alphabet (real journal output of create/destroy/recreate/create+destroy/empty-touch/storage churn, balance increments and drains, transition merges and bundle extraction in both retention modes, explicit reads); after every transition operation results, transition states, bundles and every value readable through the database interface must agree with revm's State. All traces are executed on the implementation. The concurrent-reader clause is decided by enumerating *all* interleavings of one or two cache-filling readers with a committing destroy/recreate/write/empty-touch (finding F1, now fixed).",
+      "DESIGN.md §4 C10, §5 F1",
+      "Trusted: revm_database::State through its Database (&mut) interface as the reference (its &self storage_ref falls through to the database for destroyed accounts and is not used); shuttle-engine runtime for the race part; bounds = history depth and alphabet as reported.")
+
 _pending = "check not built yet in this round; tracked in DESIGN.md §10 (build order)"
-for pid in ["C06","C07","C08","C09","C10","C11","C12","C13","C14","C15","C16","C17"]:
+for pid in ["C06","C07","C08","C09","C11","C12","C13","C14","C15","C16","C17"]:
     NOT_APPLICABLE[pid] = _pending
